@@ -217,6 +217,19 @@ def run_cases(chk, tier):
         check_family(chk, kind, els, boxes, r, tier, tag="grid",
                      oracle_frac=(0.06 if kind in POLY_LIKE else 0.1) * (1 if tier == "quick" else 3),
                      subtypes=geo.SUBTYPES)
+    # single-precision storage, double-precision boxes: the grid shapes moved to even coordinates around 2^24 (exact in float32), box
+    # corners at odd coordinates there (not representable in float32) - the box must not be rounded to the storage type
+    B = 2 ** 24
+    def _mv(x, odd):
+        if isinstance(x, list):
+            return [_mv(y, odd) for y in x]
+        return None if x is None else B + 2 * x + (1 if odd else 0)
+    for kind in geo.KINDS:
+        els, boxes = fam[kind]
+        sel = r.sample(list(boxes), min(len(boxes), 60 if tier == "quick" else 400))
+        big_els = [_mv(e, False) for e in els]
+        big_boxes = [tuple(B + 2 * c + 1 for c in b) for b in sel] + [tuple(B + 2 * c + (1 if k < 2 else 0) for k, c in enumerate(b)) for b in sel[:20]]
+        check_family(chk, kind, big_els, big_boxes, r, tier, tag="float32-precision", oracle_frac=0.05, subtypes=("float32", "float64", "float32"))
     # seeded random stream: larger structures, larger coordinates
     rounds = 2 if tier == "quick" else 12
     for k in range(rounds):
